@@ -250,12 +250,60 @@ def check_C04(ctx):
                        extra=uci_glue_extra('C04', real_tables_extra), assumptions=['64-bit collisions are outside the property'])
 
 
+def real_tables_rep_extra(ctx):
+    """C07 with the engine's OWN random tables (no ztab override): the repetition answers rest on the keys being different for
+    different positions, so the tables must have non-zero, pairwise distinct cells, and on spec-generated games (double pushes on
+    every file followed by shuffles among them) the repetition / threefold / draw answers of the C++ must be the rules' answers."""
+    V.three_way(ctx, ['zcheck\n'], lambda l, s: l if l.startswith('zcheck') else None, 'Zobrist table initialisation (repetition detection rests on it)')
+    # simpler and explicit: white pawn on its start square, a black pawn beside the target square so that the ep square matters
+    games = []
+    files = 'abcdefgh'
+    for i, f in enumerate(files):
+        g = files[i - 1] if i > 0 else files[i + 1]
+        row4 = ['1'] * 8; row4[files.index(g)] = 'p'
+        row2 = ['1'] * 8; row2[i] = 'P'
+
+        def pack(r):
+            out, run = '', 0
+            for c in r:
+                if c == '1':
+                    run += 1
+                else:
+                    out += (str(run) if run else '') + c; run = 0
+            return out + (str(run) if run else '')
+        fen = f'4k3/8/8/8/{pack(row4)}/8/{pack(row2)}/4K3 w - - 0 1'
+        games.append(f'pos {fen}\ndo {f}2{f}4\nstate\ndo e8d8\ndo e1d1\ndo d8e8\ndo d1e1\nstate\ndo e8d8\ndo e1d1\ndo d8e8\ndo d1e1\nstate\n')
+        games.append(f'pos {mirror_fen(fen)}\ndo {f}7{f}5\nstate\ndo e1d1\ndo e8d8\ndo d1e1\ndo d8e8\nstate\ndo e1d1\ndo e8d8\ndo d1e1\ndo d8e8\nstate\n')
+    text = V.lean_gen(ctx.drv, ['lab', ctx.seed * 1000 + 77, 60 if ctx.tier == 'quick' else 600])
+    text = '\n'.join(l for l in text.splitlines() if not l.startswith('ztab')) + '\n'
+    full = ''.join(games) + text
+    rc, C, err = V.run_cpp(ctx.exe, full)
+    rl, M, S, lerr = V.run_lean(ctx.drv, full)
+    ops = full.splitlines()
+    nbad = 0
+    for i, (c, sp) in enumerate(zip(C, S)):
+        if not c.startswith('fen=') or not sp.startswith('fen='):
+            continue
+        dc, ds = V.parse_state(c), V.parse_state(sp)
+        ctx.cov['evaluations'] += 1
+        ctx.count('real_table_repetition_states')
+        for k in ('rep', 'three', 'draw'):
+            if dc.get(k) != ds.get(k) and nbad < 2:
+                nbad += 1
+                start = max(j for j in range(min(i, len(ops) - 1) + 1) if ops[j].startswith('pos '))
+                V.report_violation(ctx, f'with the engine\'s own Zobrist tables `{k}` is {dc.get(k)} where the rules give {ds.get(k)}',
+                                   '\n'.join(ops[start:i + 1]) + f'\n# cpp: {c}\n# spec: {sp}\n', True, ident=f'realrep {k} {dc.get("fen")}')
+                break
+
+
 def check_C07(ctx):
     f = ['chk', 'mate', 'stale', 'rep', 'three', 'r50', 'mat', 'draw']
     return play_family(ctx, 'check/mate/stalemate/draw predicates', state_fields(f), state_fields(f), SZ,
                        'theorems in Props/C07.lean + three-way differential on the eight predicates after every op; the spec counts earlier '
-                       'positions of the game equal in (placement, side, rights, ep)',
-                       assumptions=['no 64-bit key collision inside one game', 'clock < 65535', 'game length < MAX_PLIES'])
+                       'positions of the game equal in (placement, side, rights, ep); plus a pass with the engine\'s OWN Zobrist tables (cells non-zero and '
+                       'pairwise distinct; double pushes on every file followed by king shuffles — positions that differ only in the ep square — and lab games: '
+                       'repetition / threefold / draw answers against the rules)',
+                       extra=real_tables_rep_extra, assumptions=['no 64-bit key collision inside one game', 'clock < 65535', 'game length < MAX_PLIES'])
 
 
 def check_C15(ctx):
@@ -634,6 +682,31 @@ def check_C13(ctx):
         f, a, b = bad[0]
         V.report_violation(ctx, f'evaluation is not colour-symmetric on {len(bad)} positions',
                            f'pos {f}\neval\npos {mirror_fen(f)}\neval\n# {a} vs mirrored {b}\n', True, ident=f + a + b)
+    # the correspondence (or a proof) broke without a concrete asymmetry among the sampled positions: look for one on the
+    # implementation alone, over many more placements of every specialised endgame class and more game positions
+    if (md or not ok) and not any(v['concrete'] for v in ctx.violations):
+        nh = 250 if ctx.tier == 'quick' else 2000
+        more = wf_filter(ctx, random_placements(rng, ENDGAME_CLASSES, nh))
+        extra_f, _ = eval_positions(ctx, rng, 8, 300, 0)
+        pool = more + extra_f
+        hper = max(1, len(pool) // (NPROC * 2))
+        htexts = ['ztab 9\n' + ''.join(f'pos {f}\neval\npos {mirror_fen(f)}\neval\n' for f in pool[i:i + hper]) for i in range(0, len(pool), hper)]
+        ctx.count('hunt_mirror_pairs', len(pool))
+        hbad = []
+        with ThreadPoolExecutor(max_workers=NPROC) as ex:
+            for t, C in ex.map(work, htexts):
+                i = 1
+                while i + 3 < len(C):
+                    st, ev, stm, evm = C[i], C[i + 1], C[i + 2], C[i + 3]
+                    if st.startswith('fen=') and ev.startswith('eval') and evm.startswith('eval'):
+                        d = V.parse_state(st)
+                        if d.get('mat') == '1' and ev != evm:
+                            hbad.append((d['fen'], ev, evm))
+                    i += 4
+        if hbad:
+            f, a, b = hbad[0]
+            V.report_violation(ctx, f'evaluation is not colour-symmetric (found by the search that follows a broken correspondence; {len(hbad)} of {len(pool)} positions)',
+                               f'pos {f}\neval\npos {mirror_fen(f)}\neval\n# {a} vs mirrored {b}\n', True, ident=f + a + b)
     hunt_if_needed(ctx, ok, 'static evaluation symmetry', lambda: None)
     return V.finish(ctx, 'proof', thm('C13'),
                     'theorems in Props/C13.lean (mirror laws; see DESIGN §6 C13 for the part proved) + model/C++ agreement on every evaluation and the symmetry property checked directly on the '
@@ -1281,6 +1354,13 @@ def check_C09(ctx):
     texts = []
     for fen in quietish:
         texts.append(f'pos {fen}\n' + ''.join(f'go depth {d}\n' for d in depths) + 'go depth 2 movetime 4000\ngo depth 3 wtime 100000 btime 100000\ngo depth 2 nodes 100000\n')
+    # searchmoves naming the special moves (castling has a code of its own, promotions carry a piece): the restriction must survive
+    # whatever representation the limits are stored in
+    castle = 'r3k2r/pppq1ppp/2npbn2/2b1p3/2B1P3/2NPBN2/PPPQ1PPP/R3K2R w KQkq - 6 8'
+    promo = '4k3/1P4P1/8/8/8/8/1p4p1/4K3 w - - 0 1'
+    for fen, sms in [(castle, ['e1c1', 'e1g1', 'e1c1 a2a3']), (mirror_fen(castle), ['e8c8', 'e8g8', 'e8g8 h7h6']),
+                     (promo, ['b7b8n', 'g7g8r', 'b7b8q g7g8b']), (mirror_fen(promo), ['b2b1n', 'g2g1r'])]:
+        texts.append(f'pos {fen}\n' + ''.join(f'go depth {d} searchmoves {sm}\n' for sm in sms for d in (1, 3)))
     npos = 24 if ctx.tier == 'quick' else 300
     for fen in search_positions(ctx, npos, rng):
         ops = [f'pos {fen}']
@@ -1293,7 +1373,7 @@ def check_C09(ctx):
         ops += [f'go depth {rng.randrange(3, 5)}', f'smgo {rng.randrange(1 << 30)} {rng.randrange(2, 4)}']
         texts.append('\n'.join(ops) + '\n')
     runs = go_run(ctx, texts, timeout=900)
-    ctx.cov['rule'] = (f'go depth d for d in {depths} on positions where deep iterations are instant; depth combined with movetime/clock/nodes; random searchmoves subsets (also right after a deeper '
+    ctx.cov['rule'] = (f'go depth d for d in {depths} on positions where deep iterations are instant; depth combined with movetime/clock/nodes; searchmoves naming castling and (under-)promotion moves; random searchmoves subsets (also right after a deeper '
                        'unrestricted search and with poisoned tables); time/clock/node limits must return on their own within the timeout; output checked by the spec (consecutive depths, <= d, '
                        'bestmove in subset) and trace by the acceptor')
     judge(ctx, runs, 'search limits', c09_fail)
